@@ -418,6 +418,97 @@ func tamperSign(c *Ctx, kind string) {
 	}
 }
 
+// tamperPresignOnline: honest offline presigning, every presignature stored and reloaded with the documented
+// encoders, then the online signing round with one deviating signer (wrong sigma share through tampering).
+func tamperPresignOnline(c *Ctx) {
+	n := 3
+	t := 1 + c.Intn(2)
+	m0, _ := newMaterial(c, "cmp", n, t, c.Bytes(8))
+	if !m0.complete() {
+		return
+	}
+	signers := subset(c, m0.ids, t+1+c.Intn(n-t))
+	if len(signers) < 3 {
+		signers = m0.ids
+	}
+	sid := c.Bytes(8)
+	hs := map[party.ID]protocol.Handler{}
+	for _, id := range signers {
+		h, err := protocol.NewMultiHandler(cmp.Presign(m0.cm[id], signers, nil), sid)
+		if err != nil {
+			return
+		}
+		hs[id] = h
+	}
+	res := runSessions(c, hs, "random", nil)
+	pres := map[party.ID]*ecdsa.PreSignature{}
+	for _, id := range signers {
+		p, ok := res.Results[id].(*ecdsa.PreSignature)
+		if !ok {
+			c.Emit("tamper", J{"phase": "sign", "kind": "cmp-presign-online", "tampering": []string{}, "blame": culpritsJ(res, signers), "sigs": []J{},
+				"signers": idsHex(signers), "cheater": "", "honest": idsHex(signers), "msg": "", "note": "honest presign did not complete"}, J{"ok": true})
+			return
+		}
+		// store and reload
+		b, err := cbor.Marshal(p)
+		if err != nil {
+			return
+		}
+		q := ecdsa.EmptyPreSignature(secp)
+		if err := cbor.Unmarshal(b, q); err != nil {
+			c.Emit("tamper", J{"phase": "sign", "kind": "cmp-presign-online", "note": "reload failed: " + err.Error()}, J{"ok": true})
+			return
+		}
+		pres[id] = q
+	}
+	cheater := signers[c.Intn(len(signers))]
+	tm := &tamperer{c: c, cheater: cheater, budget: 1}
+	msg := msgOfLen(c)
+	hs2 := map[party.ID]protocol.Handler{}
+	for _, id := range signers {
+		h, err := protocol.NewMultiHandler(cmp.PresignOnline(m0.cm[id], pres[id], msg, nil), sid)
+		if err != nil {
+			return
+		}
+		hs2[id] = h
+	}
+	// the cheater always deviates in its (single) online message
+	force := func(m *protocol.Message, to party.ID) []*protocol.Message {
+		if m.From == cheater && m.RoundNumber != 0 && tm.budget > 0 {
+			for tries := 0; tries < 20; tries++ {
+				if x := tm.mutate(m, to); x != nil {
+					tm.budget--
+					tm.seen = append(tm.seen, m)
+					return []*protocol.Message{x}
+				}
+			}
+		}
+		return tm.filter(m, to)
+	}
+	res2 := runSessions(c, hs2, "random", force)
+	honest := []party.ID{}
+	for _, id := range signers {
+		if id != cheater {
+			honest = append(honest, id)
+		}
+	}
+	sigs := []J{}
+	for _, id := range honest {
+		if v, ok := res2.Results[id].(*ecdsa.Signature); ok {
+			sigs = append(sigs, J{"id": hx([]byte(id)), "R": ptHex(v.R), "s": scHex(v.S)})
+		}
+	}
+	in := J{"phase": "sign", "kind": "cmp-presign-online", "n": n, "t": t, "ids": idsHex(m0.ids), "signers": idsHex(signers), "cheater": hx([]byte(cheater)),
+		"tampering": tm.applied, "msg": hx(msg), "sigs": sigs, "blame": culpritsJ(res2, honest), "honest": idsHex(honest),
+		"pub": ptHex(m0.cm[signers[0]].PublicPoint())}
+	var impl interface{} = J{"ok": true}
+	if res2.Panic != "" {
+		impl = J{"outcome": "PANIC", "detail": res2.Panic}
+	}
+	c.Emit("tamper", in, impl)
+	c.Count("sess/tamper/sign/cmp-presign-online")
+}
+
 func init() {
 	register("sess-tamper", func(c *Ctx) {
 		installPrimeHook(c.Intn(40))
@@ -435,10 +526,12 @@ func init() {
 		if c.Tier == "thorough" {
 			cmpRuns = c.N / 6
 		}
-		for i := 0; i < cmpRuns; i++ {
-			switch i % 3 {
-			case 0:
+		for i := 0; i < cmpRuns+1; i++ {
+			switch i % 4 {
+			case 3:
 				tamperSign(c, "cmp")
+			case 0:
+				tamperPresignOnline(c)
 			case 1:
 				tamperSign(c, "cmp-presign")
 			case 2:
